@@ -71,7 +71,7 @@ struct Instance {
     std::vector<EbBufferHeaderType *> held; // packets the app got but has not released yet
     uint64_t inflight_max = 0;
     bool blocked_in_drain = false;
-    bool setup_failed = false;
+    bool setup_failed = false; std::string last_failed_op;
 };
 
 static void hist(Instance &I, size_t idx, const std::string &op, long ret, uint64_t d0, const J &extra = J()) {
@@ -156,6 +156,10 @@ static void run_program(Instance &I) {
         bool cnt = counted(op); if (cnt) sim_count_allocs(1);
         // an application stops using a session whose creation/configuration/initialisation failed: it only tears it down
         bool needs_handle = !(op == "init_handle" || op == "yield" || op == "session_end" || op == "release" || op == "stream_header_release");
+        if (o.geti("retry_only", 0)) {   // an application that retries a failed configuration once (e.g. after a transient allocation failure)
+            if (!(I.setup_failed && I.handle_valid && I.last_failed_op == "set_param")) { if (cnt) sim_count_allocs(0); continue; }
+            I.setup_failed = false;
+        }
         if (nul == "" && needs_handle && (!I.handle_valid || (I.setup_failed && op != "deinit" && op != "deinit_handle"))) { hist(I, pc, op, -9999, d0); if (cnt) sim_count_allocs(0); continue; }
         if (op == "init_handle") {
             prefill_cfg(I);
@@ -170,7 +174,7 @@ static void run_program(Instance &I) {
             if (o.has("set")) { for (auto &kv : o["set"].o) cfg_set(*I.cfg, kv.first, kv.second); save = *I.cfg; }
             sim_api_enter(); EbErrorType e = svt_av1_enc_set_parameter(nul == "handle" ? nullptr : I.h, nul == "cfg" ? nullptr : I.cfg); sim_api_exit();
             *I.cfg = save;
-            if (e != EB_ErrorNone && nul == "" && !o.has("bad")) I.setup_failed = true;
+            if (e != EB_ErrorNone && nul == "" && !o.has("bad")) { I.setup_failed = true; I.last_failed_op = "set_param"; }
             hist(I, pc, op, e, d0);
         } else if (op == "init") {
             sim_api_enter(); EbErrorType e = svt_av1_enc_init(nul == "handle" ? nullptr : I.h); sim_api_exit(); if (e != EB_ErrorNone && nul == "") I.setup_failed = true; hist(I, pc, op, e, d0);
